@@ -386,3 +386,8 @@ def t_polar_psd(sess):
         for j in range(3):
             qf = qf + x[i] * V[i, j] * x[j]
     sess.prove("polar(left): x^T V x >= 0 (positive semi-definite stretch)", p.pc, (qf >= 0).z3(), tags={"optional": True})
+
+
+def default_cex(name):
+    """Generic public-API replay for verdicts that carry no more specific counterexample."""
+    return {"replay": "vf.props.replays:c11_tensors", "case": {}, "cls": {"kind": "tensor representations inconsistent"}}
